@@ -41,8 +41,9 @@ TEXT = {
           "and a differential stream on the real NewGenesis / CheckGenesis / chain.Init.",
   "design_ref": "§3 C20",
   "note": "Permutation / fresh-process invariance of the whole genesis momentum is decided on the real code by the stream's "
-          "monitor, not by a theorem. Three accepted-but-inconsistent configuration classes are reproduced on the real code on "
-          "every run and listed as known findings F13a-c.",
+          "monitor, not by a theorem. Four accepted-but-inconsistent configuration classes (no contract entry, duplicate address entry, supply above "
+          "MaxSupply, negative amounts) and a (nil,nil) return of ReadGenesisConfigFromFile are reproduced on the real code "
+          "on every run and listed as known findings F13a-e.",
   "technique": "Lean 4 proof (core List.mergeSort/Perm lemmas, induction, decide witnesses) + regenerated facts from AST + "
                "differential correspondence + ledger monitor on a real chain",
  },
